@@ -376,9 +376,10 @@ def C05():
     from contracts.spanning import EncodeSpanningRow
     from contracts.replay_docs import replayer as D, replayer_any as DA
     from contracts.validators_doc import BodyKeysValidator
+    from contracts.budget import RowMetadata
     return Property(
         "C05", units=[ContractUnit(RenderBody()), ContractUnit(SublineHeader()), ContractUnit(EncodeSpanningRow()), _render_unit(quick=("groups1",)),
-                      ContractUnit(BodyKeysValidator())]
+                      ContractUnit(BodyKeysValidator()), ContractUnit(RowMetadata())]
         + _strategy_units(), level="proof",
         technique="ghost heading state (displayed value and position per page_by level) in the loop invariant of the real PageRenderer._render_body, "
                   "inner level loop unrolled for the property's 1-3 levels; obligations at every row emission",
